@@ -161,26 +161,41 @@ Definition edge_energy_in (en : engineQ) (ftu : time_unit) (sv : serviceQ) (r : 
   * k_energy (energy_rate_energy_unit (pm_eru r)) fu.
 Definition sumQ (l : list Q) : Q := fold_right Qplus 0 l.
 
-(* the checker normalises fractions as it goes (Qred x == x): without it the numerators of a 40-edge
-   route reach tens of thousands of bits *)
-Definition spec_energy_r (en : engineQ) (ftu : time_unit) (sv : serviceQ) (r : pmrQ) (v g d : Q) : Q :=
-  Qred (pm_rate r (Qred (spec_speed en ftu sv r v)) (Qred (spec_grade sv r g)) * pm_adj r * Qred (spec_length sv r d)).
+(* The checker normalises fractions as it goes (Qred x == x) and uses that the energy of an edge is
+   linear in its length: [epm_table] holds, per table row, the specification energy PER METER
+   (spec_energy ... 1); an edge of length d then costs epm * d  ( == spec_energy ... d ). *)
+(* nearest-below dyadic rational with 96 significant bits: relative error < 2^-95, thirty orders of
+   magnitude inside the 1e-9 band; keeps the checker's integers short (the exact per-meter energies
+   have ~500-bit fractions: products of ten decimal conversion factors) *)
+Definition dyadic96 (q : Q) : Q :=
+  let n := Qnum q in
+  let d := Zpos (Qden q) in
+  if (n =? 0)%Z then 0%Q
+  else
+    let s := (96 - (Z.log2 (Z.abs n) - Z.log2 d))%Z in
+    match s with
+    | Zpos p => Qred ((n * 2 ^ s / d)%Z # (2 ^ p)%positive)
+    | Z0 => inject_Z (n / d)
+    | Zneg p => inject_Z (n / (d * 2 ^ Zpos p) * 2 ^ Zpos p)
+    end.
 
-(* one successful edge: prev / cur are the implementation's state vectors before and after *)
-Definition check_edge (en : engineQ) (sv : serviceQ) (v : vehicleQ) (sm : smodel QN) (e : @edge QN)
-                      (prev cur : list Q) : list (string * bool) :=
-  let ftu := feature_time_unit sm in
-  let vs := edge_speed en e in
-  let g := edge_grade sv e in
-  let d := e_dist e in
+Definition epm_table (en : engineQ) (ftu : time_unit) (sv : serviceQ) (r : pmrQ) : list Q :=
+  map (fun i => dyadic96 (spec_energy en ftu sv r (nth i (en_speeds en) 0%Q)
+                                  (match sv_grades sv with Some gt => nth i gt 0%Q | None => 0%Q end) 1))
+      (seq 0 (List.length (en_speeds en))).
+Definition edge_E (tab : list Q) (e : @edge QN) : Q := nth (e_id e) tab 0%Q * e_dist e.
+
+(* one successful edge: prev / cur are the implementation's state vectors before and after;
+   Ea / Eb: specification energy of the edge for the first record (ICE, BEV, PHEV charge-sustaining)
+   and for the PHEV's charge-depleting record, in the energy unit of the rate *)
+Definition check_edge (v : vehicleQ) (sm : smodel QN) (prev cur : list Q) (Ea Eb : Q) : list (string * bool) :=
   match v with
   | ICE r =>
-      let E := spec_energy_r en ftu sv r vs g d in
       let fu := feature_energy_unit sm n_liquid in
       [("energy=rate*adj*length",
-        near3 (slot sm prev n_liquid) (slot sm cur n_liquid) (E * k_energy (energy_rate_energy_unit (pm_eru r)) fu)%Q)]
+        near3 (slot sm prev n_liquid) (slot sm cur n_liquid) (Ea * k_energy (energy_rate_energy_unit (pm_eru r)) fu)%Q)]
   | BEV r cap _ bu =>
-      let E := spec_energy_r en ftu sv r vs g d in
+      let E := Ea in
       let eu := energy_rate_energy_unit (pm_eru r) in
       let fu := feature_energy_unit sm n_electric in
       let s0 := slot sm prev n_soc in
@@ -196,7 +211,7 @@ Definition check_edge (en : engineQ) (sv : serviceQ) (v : vehicleQ) (sm : smodel
       let fl := feature_energy_unit sm n_liquid in
       if Qle_bool s0 0 then
         (* entered empty: only liquid fuel *)
-        let E := spec_energy_r en ftu sv cs vs g d in
+        let E := Ea in
         [("phev-empty-no-electric", Qeq_bool (slot sm cur n_electric) (slot sm prev n_electric));
          ("energy=rate*adj*length",
           near3 (slot sm prev n_liquid) (slot sm cur n_liquid) (E * k_energy (energy_rate_energy_unit (pm_eru cs)) fl)%Q);
@@ -204,7 +219,7 @@ Definition check_edge (en : engineQ) (sv : serviceQ) (v : vehicleQ) (sm : smodel
          ("soc-step", near s1 (clampQ s0) 100)]
       else
         (* entered with charge: only electricity *)
-        let E := spec_energy_r en ftu sv cd vs g d in
+        let E := Eb in
         let eu := energy_rate_energy_unit (pm_eru cd) in
         let u := (s0 - 100 * (E * k_energy eu bu) / cap)%Q in
         [("phev-charged-no-liquid", Qeq_bool (slot sm cur n_liquid) (slot sm prev n_liquid));
@@ -213,29 +228,42 @@ Definition check_edge (en : engineQ) (sv : serviceQ) (v : vehicleQ) (sm : smodel
          ("soc-step", near s1 (clampQ u) (100 + Qabs u)%Q)]
   end.
 
-(* the whole route: every edge locally, and the accumulated energies against the sum of the
-   per-edge specification energies ([acc_*]: sums so far, in the feature's unit) *)
-Definition edge_energies (en : engineQ) (sv : serviceQ) (v : vehicleQ) (sm : smodel QN) (e : @edge QN)
-                         (prev : list Q) : Q * Q (* electric, liquid: feature units *) :=
-  let ftu := feature_time_unit sm in
-  let vs := edge_speed en e in
-  let g := edge_grade sv e in
-  let d := e_dist e in
+(* additivity: per table row, the total length driven under the first / second record *)
+Fixpoint add_at (l : list Q) (i : nat) (x : Q) : list Q :=
+  match l, i with
+  | [], _ => []
+  | y :: r, O => Qred (y + x) :: r
+  | y :: r, S j => y :: add_at r j x
+  end.
+Definition dotQ (a b : list Q) : Q := fold_right Qplus 0 (map (fun p => Qred (fst p * snd p)) (combine a b)).
+Definition dot_abs (a b : list Q) : Q := fold_right Qplus 0 (map (fun p => Qred (Qabs (fst p) * snd p)) (combine a b)).
+
+(* does the edge run under the second record (PHEV entered with charge)? *)
+Definition second_regime (v : vehicleQ) (sm : smodel QN) (prev : list Q) : bool :=
+  match v with PHEV _ _ _ _ _ => negb (Qle_bool (slot sm prev n_soc) 0) | _ => false end.
+
+Definition check_totals (v : vehicleQ) (sm : smodel QN) (st0 cur : list Q) (ta tb La Lb : list Q) : bool :=
+  let tot_a := Qred (dotQ ta La) in
+  let tot_b := Qred (dotQ tb Lb) in
+  let mag := Qred (dot_abs ta La + dot_abs tb Lb) in
   match v with
-  | ICE r => (0, spec_energy_r en ftu sv r vs g d
-                 * k_energy (energy_rate_energy_unit (pm_eru r)) (feature_energy_unit sm n_liquid))%Q
-  | BEV r _ _ _ => (spec_energy_r en ftu sv r vs g d
-                    * k_energy (energy_rate_energy_unit (pm_eru r)) (feature_energy_unit sm n_electric), 0)%Q
+  | ICE r =>
+      let k := k_energy (energy_rate_energy_unit (pm_eru r)) (feature_energy_unit sm n_liquid) in
+      near (slot sm cur n_liquid - slot sm st0 n_liquid) (tot_a * k) (mag * k)
+  | BEV r _ _ _ =>
+      let k := k_energy (energy_rate_energy_unit (pm_eru r)) (feature_energy_unit sm n_electric) in
+      near (slot sm cur n_electric - slot sm st0 n_electric) (tot_a * k) (mag * k)
   | PHEV cs cd _ _ _ =>
-      if Qle_bool (slot sm prev n_soc) 0
-      then (0, spec_energy_r en ftu sv cs vs g d
-               * k_energy (energy_rate_energy_unit (pm_eru cs)) (feature_energy_unit sm n_liquid))%Q
-      else (spec_energy_r en ftu sv cd vs g d
-            * k_energy (energy_rate_energy_unit (pm_eru cd)) (feature_energy_unit sm n_electric), 0)%Q
+      let kl := k_energy (energy_rate_energy_unit (pm_eru cs)) (feature_energy_unit sm n_liquid) in
+      let ke := k_energy (energy_rate_energy_unit (pm_eru cd)) (feature_energy_unit sm n_electric) in
+      near (slot sm cur n_liquid - slot sm st0 n_liquid) (tot_a * kl) (mag * kl)
+      && near (slot sm cur n_electric - slot sm st0 n_electric) (tot_b * ke) (mag * ke)
   end.
 
+(* the whole route: every edge locally, and at the end of the route the accumulated energies against
+   the sum of the per-edge specification energies *)
 Fixpoint check_route (en : engineQ) (sv : serviceQ) (v : vehicleQ) (sm : smodel QN) (es : list (@edge QN))
-    (st0 : list Q) (prev : list Q) (acc_e acc_l mag : Q) (outs : list (res (list Q))) (i : nat) : option string :=
+    (st0 : list Q) (prev : list Q) (ta tb La Lb : list Q) (outs : list (res (list Q))) (i : nat) : option string :=
   match es, outs with
   | [], [] => None
   | e :: es', out :: outs' =>
@@ -244,23 +272,29 @@ Fixpoint check_route (en : engineQ) (sv : serviceQ) (v : vehicleQ) (sm : smodel 
                           else Some ("edge" ++ Show.show_nat i ++ ":error-class")
       | Some _, _ => Some ("edge" ++ Show.show_nat i ++ ":must-be-rejected")
       | None, Ok cur =>
-          match and_all (check_edge en sv v sm e prev cur) with
+          let second := second_regime v sm prev in
+          let E := edge_E (if second then tb else ta) e in
+          match and_all (check_edge v sm prev cur E E) with
           | Some bad => Some ("edge" ++ Show.show_nat i ++ ":" ++ bad)
           | None =>
-              let '(de, dl) := edge_energies en sv v sm e prev in
-              let acc_e' := Qred (acc_e + de)%Q in
-              let acc_l' := Qred (acc_l + dl)%Q in
-              let mag' := Qred (mag + Qabs de + Qabs dl)%Q in
-              let has_e := match v with ICE _ => false | _ => true end in
-              let has_l := match v with BEV _ _ _ _ => false | _ => true end in
-              if (negb has_e || near (slot sm cur n_electric - slot sm st0 n_electric) acc_e' mag')
-                 && (negb has_l || near (slot sm cur n_liquid - slot sm st0 n_liquid) acc_l' mag')
-              then check_route en sv v sm es' st0 cur acc_e' acc_l' mag' outs' (S i)
+              let La' := if second then La else add_at La (e_id e) (e_dist e) in
+              let Lb' := if second then add_at Lb (e_id e) (e_dist e) else Lb in
+              if (match outs' with [] | [Err _] => check_totals v sm st0 cur ta tb La' Lb' | _ => true end)
+              then check_route en sv v sm es' st0 cur ta tb La' Lb' outs' (S i)
               else Some ("edge" ++ Show.show_nat i ++ ":not-additive")
           end
       | None, _ => Some ("edge" ++ Show.show_nat i ++ ":unexpected-error")
       end
   | _, _ => Some "length-mismatch"
+  end.
+
+(* tables and zeroed length sums for a case *)
+Definition route_tables (en : engineQ) (sv : serviceQ) (v : vehicleQ) (sm : smodel QN) : list Q * list Q * list Q :=
+  let ftu := feature_time_unit sm in
+  let zeros := map (fun _ => 0%Q) (en_speeds en) in
+  match v with
+  | ICE r | BEV r _ _ _ => let t := epm_table en ftu sv r in (t, t, zeros)
+  | PHEV cs cd _ _ _ => (epm_table en ftu sv cs, epm_table en ftu sv cd, zeros)
   end.
 
 (* starting charge: the query's value (BEV: 100 when absent), rejected outside [0, 100] or when
